@@ -98,3 +98,110 @@ func TestSelf(t *testing.T) {
 func resultUpdate(r verifhooks.Requirement) result.PackageUpdate {
 	return result.PackageUpdate{Name: r.Req.Name, VersionFrom: r.Req.Version, Type: r.Req.Type}
 }
+
+// TestSelfExtended: the same guards for the generator options that are off by default
+// (advisories linked through aliases, dev/test scoped requirements on packages production
+// requirements reach as well): the schema indexes, the rendered manifest reads back as the
+// model says (one requirement per key; for an npm key declared in devDependencies and in
+// another section the devDependencies entry is the one that counts; dev/test groups as
+// Manifest.DevScoped says), the scenario resolves, linked advisories name records that exist,
+// and the reference OSV evaluation agrees with the implementation's predicate.
+func TestSelfExtended(t *testing.T) {
+	for _, system := range []string{NPM, Maven} {
+		t.Run(system, func(t *testing.T) {
+			linked, shared := 0, 0
+			rapid.Check(t, func(rt *rapid.T) {
+				cfg := DefaultConfig(system)
+				cfg.UnknownReqs = false
+				cfg.AliasDuplicates = 30
+				cfg.LinkedAdvisories = 60
+				cfg.DevShared = 60
+				s := GenScenario(rt, cfg)
+				ix, err := s.Universe.Index()
+				if err != nil {
+					rt.Fatalf("index: %v", err)
+				}
+				ids := map[string]bool{}
+				for _, o := range s.Vulns {
+					if ids[o.ID] {
+						rt.Fatalf("duplicate advisory id %s", o.ID)
+					}
+					ids[o.ID] = true
+					for _, a := range o.Affected {
+						if _, ok := ix.Package(a.Package.Name); !ok {
+							rt.Fatalf("advisory %s affects unknown package %s", o.ID, a.Package.Name)
+						}
+					}
+				}
+				if len(AdvisoryLinks(s.Vulns)) > 0 {
+					linked++
+				}
+				w, err := s.Materialise(0)
+				if err != nil {
+					rt.Fatalf("materialise: %v", err)
+				}
+				defer w.Close()
+				path, err := w.WriteManifest(s.Manifest)
+				if err != nil {
+					rt.Fatal(err)
+				}
+				reqs, err := verifhooks.ReadManifest(w.System, scalibrfs.DirFS(filepath.Dir(path)), filepath.Base(path))
+				if err != nil {
+					rt.Fatalf("read back: %v\n%s", err, s.Manifest.Render())
+				}
+				type key struct{ name, alias string }
+				want := map[key]Requirement{} // the entry that counts per key
+				for _, d := range s.Manifest.Deps {
+					k := key{d.Name, d.Alias}
+					if e, ok := want[k]; ok && system == NPM {
+						if rank := map[string]int{"": 0, "optional": 1, "dev": 2}; rank[d.Group] < rank[e.Group] {
+							continue
+						}
+					}
+					want[k] = d
+				}
+				if len(reqs) != len(want)+len(s.Manifest.Management) {
+					rt.Fatalf("read back %d requirements, model has %d keys + %d management entries\n%s", len(reqs), len(want), len(s.Manifest.Management), s.Manifest.Render())
+				}
+				dev := DevGroup(system)
+				for _, r := range reqs {
+					u := UpdateOf(resultUpdate(r))
+					if u.Management {
+						continue
+					}
+					m, ok := want[key{u.Name, u.Alias}]
+					if !ok || m.Req != r.Req.Version {
+						rt.Fatalf("read back %v: model has %+v\n%s", r.Req, m, s.Manifest.Render())
+					}
+					isDev := false
+					for _, g := range r.Groups {
+						isDev = isDev || g == dev
+					}
+					if isDev != s.Manifest.DevScoped(u.Name, u.Alias) {
+						rt.Fatalf("read back %v with groups %v: model says dev/test = %v\n%s", r.Req, r.Groups, !isDev, s.Manifest.Render())
+					}
+					if isDev {
+						shared++
+					}
+				}
+				if _, err := w.Resolve(context.Background(), path, options.ResolutionOptions{}); err != nil {
+					rt.Fatalf("resolve: %v", err)
+				}
+				for _, o := range s.Vulns {
+					sch, _ := o.ToSchema()
+					for _, p := range ix.Packages {
+						for _, v := range p.Versions {
+							vk := resolve.VersionKey{PackageKey: resolve.PackageKey{System: w.System, Name: p.Name}, Version: v.Version, VersionType: resolve.Concrete}
+							if a, b := Affected(o, Ecosystem(system), p.Name, v.Version), verifhooks.IsAffected(sch, vk); a != b {
+								rt.Fatalf("reference evaluator %v, implementation %v on %s@%s for %+v", a, b, p.Name, v.Version, o)
+							}
+						}
+					}
+				}
+			})
+			if linked == 0 || shared == 0 {
+				t.Fatalf("generator options had no effect: %d scenarios with linked advisories, %d dev/test requirements", linked, shared)
+			}
+		})
+	}
+}
